@@ -18,6 +18,30 @@ CLAIMED = {
         text="Theorem C20_cmdline_roundtrip: for every vector of UTF-16 strings that assemble_cmdline accepts, parsing the produced line with the Microsoft argument rules (C runtime 2008+, CommandLineToArgvW and the older runtime: uniform in the rule parameter) returns exactly the vector; NUL is rejected iff present; n backslashes before a quote / at the end come back as n for every n.  The functions' source text is cut out of popen.rs at build time, compiled on Linux and compared with the model; its output is parsed back by both reference parsers.",
         note="Trusted: Coq kernel; Lib/MsParse.v encodes the documented parsing rules (no Windows runtime here; the documented example table is proved); build.rs cutter and UTF-16 shim; extraction for bulk cases (cross-checked against vm_compute).  The program-name rule is proved only for names without quote and backslash (C20_progname_roundtrip_partial).",
         design="5/C20"),
+    "C01": dict(
+        engine="E1-kernel-in-the-loop",
+        technique="Coq proof: reachability invariant of the closed system (library machine || scripted child || pipe kernel) by induction over steps, a natural-number measure that every step of either party decreases, and a progress theorem; tied to the code by running the real Communicator against the extracted kernel model call by call",
+        text="Theorems C01_*: for every subset of piped streams, all pipe capacities >= PIPE_BUF, every finite child program (partial reads, writes to either stream, closes, sleeps, exit), every input and every interleaving and short-I/O choice: the invariant holds, every step of parent or child strictly decreases the measure mu (so every schedule is finite, no fairness needed), and a state with the parent inside the call always has an enabled step (never blocked on one pipe while the child is blocked on another); after the child is gone the parent alone runs to its return; a stream at EOF is never polled or read again.  The proof needs WRITE_SIZE <= PIPE_BUF, which is re-derived from the source on every run.",
+        note="Trusted: Coq kernel; K (Kernel/CommK.v) models Linux pipes/poll (POLLOUT implies an atomic write of <= PIPE_BUF bytes completes; POLLHUP/POLLERR rules), validated by E1 not proved; simdrive interposers; extraction + spsim glue.  The cfg(windows) thread-based communicator is not modelled.  Exec::capture / Pipeline::capture reach the same loop through Popen::communicate_start (exercised by E2).",
+        design="5/C01"),
+    "C02": dict(
+        engine="E1-kernel-in-the-loop",
+        technique="Coq proof: ghost-state invariant (returned ++ in-flight ++ in-pipe = written, per stream; got ++ in-pipe ++ unsent = input) preserved by every step, with short reads/writes as universally quantified kernel choices; kernel-in-the-loop correspondence with position-tagged bytes",
+        text="Theorems C02_*: at every reachable state, also under limits and timeouts, nothing is lost, duplicated, reordered or moved between streams; an unlimited Ok read returned exactly what the child wrote with every captured stream at EOF, stdin closed and the whole input delivered (a child reading to EOF got exactly the input); Option-ness mirrors the piped streams; the call right after the write that exhausts the input is close(stdin).",
+        note="Trusted: as C01.  The text-returning variants are compared with String::from_utf8_lossy of the model's byte result by the harness (not a theorem).",
+        design="5/C02"),
+    "C03": dict(
+        engine="E1-kernel-in-the-loop",
+        technique="Coq proof: invariant total <= limit and the byte-exactness invariant over arbitrary histories of read() calls (GStart choices with arbitrary limits); kernel-in-the-loop correspondence with limit sequences",
+        text="Theorems C03_*: for every limit, at every instant stdout+stderr bytes of the call <= limit; reads with arbitrarily changing limits return consecutive non-overlapping pieces whose concatenation plus the pipe content is what the child wrote (nothing consumed beyond the limit, undelivered input still queued once); the size handed to read() never exceeds the allowance; an all-empty Ok result with limit >= 1 means stdin done and every captured stream at EOF.",
+        note="Trusted: as C01.",
+        design="5/C03"),
+    "C04": dict(
+        engine="E1-kernel-in-the-loop",
+        technique="Coq proof (invariant over steps: no timeout without a limit; range of the poll argument; byte invariant across timed-out calls) + kernel-in-the-loop correspondence under a virtual clock for the quantitative bounds",
+        text="Theorems C04_*: with no time limit a timeout is never reported, for every child and schedule (holds only since the fix of F1); the poll() argument is within 0..i32::MAX ms for every duration; across any history of timed-out and successful reads no byte is lost or repeated and the rest of the input stays queued once.  PARTIAL: 'returns by t + one I/O step' and 'TimedOut only after t elapsed (ms granularity)' are checked on the real code by the E1 monitors under virtual time (limits 0, 1 ns, sub-ms, > 2^31 ms, 30 days; flooding, silent, trickling children), not yet proved in Coq.",
+        note="Trusted: as C01; wall-clock meaning of the virtual clock rests on the OS honouring poll timeouts.",
+        design="5/C04"),
     "C09": dict(
         engine="E1-kernel-in-the-loop",
         technique="Coq proof (invariants by induction over executions of the Popen state machine on a process model; finite sweep over all exit codes and signals) + kernel-in-the-loop correspondence: the real Popen methods run on a virtual process and clock served by the extracted model",
